@@ -54,3 +54,8 @@ add("C20", "model_checking",
     "exchangeFeedbackToLibp2p runs over all 256 feedback values (Accept iff FeedbackAccepted, everything else including out-of-range is not Accept) and the real topic-validator closure of the libp2p Connection runs with stub codec/handler whose outcomes are symbolic: Accept for a message from another peer implies decode succeeded, a handler is installed and its verdict was accepted.",
     "Only the mapping and the validator closure are claimed. The handler-replacement window of (*Connection).background (third-party pubsub behaviour) and the in-memory daisy-chain network are NOT decided (see DESIGN.md §6); libp2p gossipsub itself is outside.",
     "symbolic execution of go/ssa + SMT", "§5 C20")
+
+add("C16", "model_checking",
+    "Sequential refinement of every shipped in-memory store against a reference model written from the tmstore interface comments: a state reached by 0-2 (quick) / 0-3 (thorough) operations with symbolic heights, rounds, keys, hashes and signatures, then every method with symbolic arguments; results, error types (DoubleActionError, PubKeyChangedError, FinalizationOverwriteError, OverwriteError, RoundUnknownError, HeightUnknownError, ErrStoreUninitialized, *AlreadyExist, No*Hash, count mismatch) and reloaded values must equal the model, for every map iteration order inside LoadRoundState; plus independence of stored values from later reuse of the caller's slices where the store copies.",
+    "The CONCURRENT half of the property (linearizability under interleavings) is NOT decided by this check: every method body is one critical section under the store mutex, and plain data races are invisible to the cooperative scheduler, so only the sequential contract is claimed. Domain: heights >= 1, non-empty signatures (zero values are used as 'absent' sentinels by the stores; recorded as an observation in DESIGN.md). SQLite stores are outside.",
+    "symbolic execution of go/ssa + SMT; refinement against a reference model", "§5 C16")
